@@ -6,5 +6,6 @@ def main (args : List String) : IO UInt32 := do
   match args with
   | ["c05"] => Goml.Driver.C05.main; return 0
   | ["c15"] => Goml.Driver.C15.main; return 0
+  | ["c17"] => Goml.Driver.C19.main; return 0
   | ["c19"] => Goml.Driver.C19.main; return 0
   | _ => IO.eprintln "usage: gomlmodel <c05|…> < lines"; return 2
